@@ -765,6 +765,8 @@ def run(ctx: vlib.Ctx):
         "TypedDict, plain unions, enums, sets, tuples, non-str keys, class-level discriminators / base-typed polymorphic "
         "fields and the codec (non-mixin) entry points are covered by the oracle only",
         "the format libraries and the stdlib leaf codecs are oracles with assumed laws (hypotheses of the theorems)",
+        "tools/kernels/k41_format_dialects.py (AST reader of the three dialect classes), tools/kernels/k40_codec_wrapper.py "
+        "(symbolic walk of the codec wrapper generator) and coq/theories/CodecWrap.v (meaning of the emitted skeleton)",
         "tools/kernels/k11_method_names.py: translator extension (f-strings over str, +=, str-subclass construction) "
         "and coq/theories/PyK_names.v",
     ]
@@ -772,8 +774,8 @@ def run(ctx: vlib.Ctx):
                                           "C04_doc_is_basic", "C04_doc_exact"])
     ctx.theorems("props/C04_names.vo", ["C04_method_names_injective", "C04_method_names_total",
                                         "C04_method_table_no_overwrite"], kernels=["K11"])
-    ctx.theorems("props/C04_dialects.vo", ["C04_merge_strategies_is_model_clause", "C04_merge_keeps_format_omit_none"],
-                 kernels=["K2", "K13"])
+    ctx.theorems("props/C04_dialects.vo", ["C04_merge_strategies_is_model_clause", "C04_merge_keeps_format_omit_none",
+                                           "C04_format_dialect_tables_match_source"], kernels=["K2", "K13", "K41"])
     ctx.theorems("props/C04_codec.vo", ["C04_codec_decode_is_unpack_after_predecoder",
                                         "C04_codec_encode_is_postencoder_after_pack"], kernels=["K40"])
     ctx.checker_cmd = (f"make -C {vlib.COQ} props/C04_formats.vo props/C04_names.vo props/C04_dialects.vo props/C04_codec.vo "
